@@ -514,6 +514,9 @@ Qed.
 Definition hub_f5 : hub := hub_of world_f5.
 Definition tb_f5 : token := tok_of (w_bsei world_f5).
 Definition ts_f5 : token := tok_of (w_stsei world_f5).
+Lemma some_inj {A} (a b : A) : Some a = Some b -> a = b.
+Proof. intros H. inversion H. reflexivity. Qed.
+
 Definition synced_of (w : world) (h : hub) : hub :=
   match slashing w A_hub h with Some x => x | None => h end.
 
@@ -538,7 +541,7 @@ Proof.
   { unfold E1_exit. do 5 (split; [vm_compute; discriminate|]).
     apply (wait_bounded_of_forallb hub_f5). vm_compute. reflexivity. }
   split; [vm_compute; discriminate|].
-  split; [intros h1 H; rewrite synced_f5 in H; inversion H; subst h1; vm_compute; discriminate|].
+  split; [intros h1 H; rewrite synced_f5 in H; apply some_inj in H; subst h1; vm_compute; discriminate|].
   split.
   { eexists. split; [exact synced_f5|]. left. split; vm_compute; reflexivity. }
   split; [split; vm_compute; [reflexivity | discriminate]|].
@@ -568,7 +571,7 @@ Proof.
   { unfold E1_exit. do 5 (split; [vm_compute; discriminate|]).
     apply (wait_bounded_of_forallb hub1). vm_compute. reflexivity. }
   split; [vm_compute; discriminate|].
-  split; [intros h1 H; rewrite synced_1 in H; inversion H; subst h1; vm_compute; discriminate|].
-  split; [intros h1 H; rewrite synced_1 in H; inversion H; subst h1; split; intros _; vm_compute; reflexivity|].
+  split; [intros h1 H; rewrite synced_1 in H; apply some_inj in H; subst h1; vm_compute; discriminate|].
+  split; [intros h1 H; rewrite synced_1 in H; apply some_inj in H; subst h1; split; intros _; vm_compute; reflexivity|].
   repeat split; vm_compute; reflexivity.
 Qed.
